@@ -255,6 +255,8 @@ func (cc *ClientConn) newStream(
 	err = rw.Write(ctx, &rpc)
 	if err != nil {
 		log.Error().Err(err).Msg("NewStream: failed to open")
+		// no stream will exist to tear the registration down later
+		teardown()
 		return nil, err
 	}
 
